@@ -77,6 +77,17 @@ func c19Var(v, key string) string {
 func c19Seq(names []string) []string {
 	var out []string
 	for _, n := range names {
+		if strings.HasPrefix(n, "sweep") {
+			// section lengths N-40 .. N+40 around a varint width boundary N, in ascending order: every length
+			// at which the section's length prefix, or the prefix of the data length alone (section length
+			// minus the 36-byte CID), changes width, each followed by further sections
+			var k int
+			fmt.Sscanf(n[5:], "%d", &k)
+			for l := k - 40; l <= k+40; l++ {
+				out = append(out, fmt.Sprintf("L%d", l))
+			}
+			continue
+		}
 		if strings.HasPrefix(n, "many") {
 			var k int
 			fmt.Sscanf(n[4:], "%d", &k)
